@@ -49,9 +49,9 @@ def check(prop, tier):
     attrs = os.path.join(wd, "attrs.json")
     run_driver("smdef_driver.py", ["--attrs", attrs], cwd=wd)
     if tier == "quick":
-        c = cfg(["a", "b"], 3, 2)
+        c = cfg(["a", "_b"], 3, 2)          # a leading underscore is a legal state name
     else:
-        c = cfg(["a", "b", "c"], 3, 2)
+        c = cfg(["a", "_b", "c"], 3, 2)
     r = tlc.run("SMDef", c, env={"SM_ATTRS": attrs}, workers=1, heap="8g", timeout=7200, tag="smdef")
     tlc.require_clean(r, "SMDef")
     out.add_mc("SMDef (enumerated universe of definitions; merge/override laws)", r)
